@@ -26,7 +26,7 @@ func init() {
 
 func runC14(c *Ctx) {
 	p := c.Prog
-	c.Rule("R14.1", "class scripts clear every key they may set (exhaustive over constant keys)", 20)
+	c.Rule("R14.1", "class scripts clear every key they may set (exhaustive over constant keys)", 14)
 	c.Rule("R14.2", "only stable-Service paths enter the canary Ingress, re-targeted to the canary Service", 2)
 	c.Rule("R14.3", "every write of the ingress provider targets the canary Ingress", 4)
 	c.Rule("R14.4", "optional Ingress blocks are dereferenced only under a nil check", 1)
